@@ -213,6 +213,14 @@ def check_history(c):
             raise Violation("tlsh:reused-object:exception", exp, repr(got)[:100])
         if got != exp:
             raise Violation("tlsh:reused-object!=model", {"call": i, "d": exp}, {"call": i, "d": got})
+        if exp is not None:
+            # the hasher that just computed this digest stands for it in distances (both argument positions), every time
+            yard = R.tlsh_model(bytes(range(256)) * 2, b, w, ck, True)
+            for name, d, e in (("object,bytes", guard(tdistance, obj, yard), R.tlsh_distance(exp, yard, ck)),
+                               ("bytes,object", guard(tdistance, yard, obj), R.tlsh_distance(yard, exp, ck)),
+                               ("object,own-bytes", guard(tdistance, obj, exp), 0)):
+                if d != e:
+                    raise Violation("tlsh:reused-object:distance(%s)!=model" % name, {"call": i, "d": e}, {"call": i, "d": d})
 
 
 def history_strategy(tier):
